@@ -97,8 +97,13 @@ class Ctx:
         lock_dst = os.path.join(self.harness_dir, "Cargo.lock")
         if not os.path.exists(lock_dst) and os.path.exists(lock_src):
             shutil.copy(lock_src, lock_dst)
-        p = subprocess.run(["cargo", "build", "--release", "--offline", "-p", self.crate], cwd=self.harness_dir,
-                           env=env, stdout=subprocess.PIPE, stderr=subprocess.STDOUT, text=True)
+        for attempt in range(6):
+            p = subprocess.run(["cargo", "build", "--release", "--offline", "-p", self.crate], cwd=self.harness_dir,
+                               env=env, stdout=subprocess.PIPE, stderr=subprocess.STDOUT, text=True)
+            if p.returncode != 0 and "failed to load manifest for workspace member" in p.stdout and attempt < 5:
+                time.sleep(10)   # a sibling crate directory is being created right now
+                continue
+            break
         if p.returncode != 0:
             log(p.stdout[-6000:])
             raise ToolError("cargo build of the harness failed")
@@ -215,6 +220,25 @@ class Ctx:
         self.transitions += nlines
         log("[tlc-trace] %s on %s: %d events, %d bad, hits %s (%.1fs)" % (spec_rel, os.path.basename(trace_file), nlines, len(bads), hits, dt))
         return v, [(b[1], b[2], b[3], b[4]) for b in bads]
+
+    def tlapm(self, spec_rel, timeout=600):
+        """Check a TLAPS proof module; returns (obligations, proved).  A failure is a tool error."""
+        spec = os.path.join(SPEC, spec_rel)
+        d = os.path.dirname(spec)
+        cache = self.path("tlacache-" + os.path.basename(spec_rel))
+        t = time.time()
+        p = subprocess.run(["timeout", str(timeout), "tlapm", "--cleanfp", "--threads", "4", "--cache-dir", cache, os.path.basename(spec)],
+                           cwd=d, stdout=subprocess.PIPE, stderr=subprocess.STDOUT, text=True)
+        m = re.search(r"All (\d+) obligations? proved", p.stdout)
+        shutil.rmtree(cache, ignore_errors=True)
+        if p.returncode != 0 or not m:
+            log(p.stdout[-3000:])
+            raise ToolError("tlapm did not prove %s" % spec_rel)
+        n = int(m.group(1))
+        self.extra.setdefault("tlaps", []).append({"module": spec_rel, "obligations": n, "discharged": n,
+                                                   "wall_s": round(time.time() - t, 1)})
+        log("[tlapm] %s: all %d obligations proved (%.1fs)" % (spec_rel, n, time.time() - t))
+        return n, n
 
     # ------------------------------------------------------------------ verdicts
     def report(self, key, what, events):
